@@ -100,6 +100,34 @@ def run(idx, rep, tier):
         ok = equal(t, want)
         rep.decide(ok, "wrapper-product", f"{kind}._matmat", f"evaluates to {show(norm(t))}; required {show(norm(want))}", detail="" if ok else "mismatch",
                    locs=[idx.loc(mm.module, mm.node)])
+    # ------------------------------------------------------------ kind hierarchy: a subclass is selected by every dispatch rule of its
+    # ancestors, so it must represent the same matrix over the same attributes as they do
+    for ci in idx.operator_classes():
+        ancestors = [c for c in idx.mro(ci)[1:] if c.name != "LinearOperator" and c in idx.operator_classes()]
+        for sup in ancestors:
+            m_sub, m_sup = idx.find_method(ci, "_matmat"), idx.find_method(sup, "_matmat")
+            construct = f"{ci.name}<{sup.name}"
+            loc = [idx.loc(ci.module, ci.node)]
+            if m_sub is None or m_sup is None or m_sub.cls.name == "LinearOperator":
+                rep.undecided("kind-hierarchy", construct, "no own product method to derive the represented matrix from", locs=loc)
+                continue
+            if m_sub is m_sup:
+                rep.proved("kind-hierarchy", construct, f"{ci.name} inherits the product of {sup.name}: same represented matrix", locs=loc, nontrivial=False)
+                continue
+            Ms = []
+            for mth in (m_sub, m_sup):
+                rets = [r for r in df.returns(mth.node) if r.value is not None]
+                t = te.eval_in(mth, rets[0].value) if len(rets) == 1 else ("opaque", "returns")
+                Ms.append(strip_operand(t, sym(mth.params[1]), "right"))
+            if Ms[0] is None or Ms[1] is None or has_opaque(Ms[0]) or has_opaque(Ms[1]):
+                rep.undecided("kind-hierarchy", construct, "a product method is outside the term grammar", locs=loc)
+                continue
+            ok = equal(Ms[0], Ms[1])
+            inherited = sorted({r.role for rs in idx.rules.values() for r in rs if r.kind == "rule" and any(sup.name in ts for ts in r.types)
+                                and not any(r2 is not r and r2.fname == r.fname and any(ci.name in ts for ts in r2.types) for r2 in idx.rules.get(r.fname, []))})
+            rep.decide(ok, "kind-hierarchy", construct, f"{ci.name} represents {show(norm(Ms[0]))}, its base class {sup.name} represents {show(norm(Ms[1]))}" +
+                       ("" if ok else f"; every dispatch rule written for {sup.name} operands is selected for a {ci.name} too ({len(inherited)} rules, e.g. {', '.join(inherited[:4])})"),
+                       detail="" if ok else "meaning", locs=loc)
     # ------------------------------------------------------------ (b) transpose / adjoint rules
     for fname, mk in (("transpose", T), ("adjoint", H)):
         rules = [r for r in idx.rules.get(fname, []) if r.kind == "rule"]
